@@ -74,6 +74,18 @@ def nest_solver(ts):
     return inner
 
 
+def placed_solver(ts):
+    """a long cascade as ONE sub-solver, placed twice in series in a parent (hierarchy with large placed parts)"""
+    inner = cascade_solver(ts)
+    with lk.Solver() as S:
+        a = inner.put()
+        b = inner.put()
+        lk.connect(a.pin["out"], b.pin["in"])
+        lk.Pin("in").put(a.pin["in"])
+        lk.Pin("out").put(b.pin["out"])
+    return S
+
+
 class ClosedFormStream(Stream):
     name = "closed_form"
     imports = "Field Matrix Base Kernel Network Solve Corr"
@@ -82,8 +94,8 @@ class ClosedFormStream(Stream):
     shard_size = 4
 
     def generate(self, rng, tier):
-        sizes = [("cascade", 200), ("cascade", 1000), ("nest", 16), ("nest", 40)] if tier == "quick" else \
-                [("cascade", 500), ("cascade", 2000), ("cascade", 2000), ("nest", 40), ("nest", 60)]
+        sizes = [("cascade", 200), ("cascade", 1000), ("nest", 16), ("nest", 40), ("placed", 300)] if tier == "quick" else \
+                [("cascade", 500), ("cascade", 2000), ("cascade", 2000), ("nest", 40), ("nest", 60), ("placed", 800)]
         out = []
         for kind, n in sizes:
             idx = [rng.randrange(len(PHASES) - 1) for _ in range(n)]
@@ -97,10 +109,13 @@ class ClosedFormStream(Stream):
         prod = (Fr(1), Fr(0))
         for t in ts:
             prod = cmulf(prod, t)
+        if d["kind"] == "placed":
+            prod = cmulf(prod, prod)
         expected = [prod, (Fr(0), Fr(0)), prod, (Fr(0), Fr(0))]
         try:
             def go():
-                S = cascade_solver(ts) if d["kind"] == "cascade" else nest_solver(ts)
+                S = (cascade_solver(ts) if d["kind"] == "cascade" else
+                     placed_solver(ts) if d["kind"] == "placed" else nest_solver(ts))
                 return S.solve()
             mod = with_timeout(120, go)
             vals = [mod.get_A("out", "in"), mod.get_A("in", "in"), mod.get_A("in", "out"),
